@@ -249,3 +249,136 @@ fn verif_replay() {
         println!("VERIF-RESULT {} {}", n, out);
     }
 }
+
+// ---------------------------------------------------------------------------------------------
+// API-level confirmation of findings (run only when VERIF_API names the scenario)
+mod api {
+    use crate::{
+        configuration::Configuration,
+        database::{
+            graph_database::GraphDatabaseService,
+            query_language::parameter::{Parameters, ParametersAdd},
+        },
+        event_service::EventService,
+        security::{base64_encode, random32},
+    };
+    use std::path::PathBuf;
+
+    fn data_path(name: &str) -> PathBuf {
+        let base = std::env::var("VERIF_DATA_DIR").unwrap_or_else(|_| "/var/cache/discret-verif/data".to_string());
+        let p: PathBuf = format!("{}/{}", base, name).into();
+        std::fs::create_dir_all(&p).unwrap();
+        p
+    }
+
+    /// C01: an update nested below an unchanged reference must still be authorised.
+    /// One user, admin of a room that grants Person but not Pet.  The pet lives in another room.
+    /// Moving the pet into the first room (where the user has no right on Pet) through a nested
+    /// mutation whose parent does not change must be refused.
+    #[tokio::test(flavor = "multi_thread")]
+    async fn verif_api_nested_reference() {
+        if std::env::var("VERIF_API").map(|v| v != "nested_reference").unwrap_or(true) {
+            return;
+        }
+        let data_model = "
+        ns {
+            Person{ name:String, pets:[ns.Pet] }
+            Pet{ name:String }
+        }";
+        let secret = random32();
+        let (app, verifying_key, _) = GraphDatabaseService::start(
+            "verif app",
+            data_model,
+            &secret,
+            &random32(),
+            data_path("nested_reference"),
+            &Configuration::default(),
+            EventService::new(),
+        )
+        .await
+        .unwrap();
+        let user_id = base64_encode(&verifying_key);
+        let mk_room = |entity: &'static str| {
+            let app = app.clone();
+            let user_id = user_id.clone();
+            async move {
+                let mut param = Parameters::default();
+                param.add("user_id", user_id).unwrap();
+                param.add("entity", entity.to_string()).unwrap();
+                let room = app
+                    .mutate_raw(
+                        r#"mutate mut {
+                            sys.Room{
+                                admin: [{ verif_key:$user_id }]
+                                authorisations:[{
+                                    name:"admin"
+                                    rights:[{ entity:$entity mutate_self:true mutate_all:true }]
+                                }]
+                            }
+                        }"#,
+                        Some(param),
+                    )
+                    .await
+                    .unwrap();
+                base64_encode(&room.mutate_entities[0].node_to_mutate.id)
+            }
+        };
+        let person_room = mk_room("ns.Person").await;
+        let pet_room = mk_room("ns.Pet").await;
+
+        let mut param = Parameters::default();
+        param.add("person_room", person_room.clone()).unwrap();
+        param.add("pet_room", pet_room.clone()).unwrap();
+        let res = app
+            .mutate_raw(
+                r#"mutate mut {
+                    ns.Person{
+                        room_id: $person_room
+                        name: "me"
+                        pets:[{ room_id: $pet_room name:"kiki" }]
+                    }
+                }"#,
+                Some(param),
+            )
+            .await
+            .expect("both rooms grant what is needed");
+        let person = &res.mutate_entities[0];
+        let person_id = base64_encode(&person.node_to_mutate.id);
+        let pet_id = base64_encode(&person.sub_nodes.get("pets").unwrap()[0].node_to_mutate.id);
+
+        // direct attempt: refused (control)
+        let mut param = Parameters::default();
+        param.add("pet_id", pet_id.clone()).unwrap();
+        param.add("person_room", person_room.clone()).unwrap();
+        let direct = app
+            .mutate_raw(
+                r#"mutate mut { ns.Pet{ id:$pet_id room_id:$person_room name:"moved" } }"#,
+                Some(param),
+            )
+            .await;
+        println!("VERIF-API direct_refused={}", direct.is_err());
+
+        // nested below the unchanged parent
+        let mut param = Parameters::default();
+        param.add("person_id", person_id.clone()).unwrap();
+        param.add("pet_id", pet_id.clone()).unwrap();
+        param.add("person_room", person_room.clone()).unwrap();
+        let nested = app
+            .mutate_raw(
+                r#"mutate mut {
+                    ns.Person{
+                        id:$person_id
+                        pets:[{ id:$pet_id room_id:$person_room name:"moved" }]
+                    }
+                }"#,
+                Some(param),
+            )
+            .await;
+        println!("VERIF-API nested_refused={}", nested.is_err());
+        let q = app
+            .query("query q{ ns.Pet{ name room_id } }", None)
+            .await
+            .unwrap();
+        println!("VERIF-API pets={}", q.replace('\n', ""));
+    }
+}
